@@ -37,6 +37,18 @@ Theorem C15_restart : forall d0 cands rest known,
 Proof. exact fixed_restart. Qed.
 Print Assumptions C15_restart.
 
+(* ... and when the new search ends with its forced dump (optionally followed by the Pareto step), results.csv holds exactly
+   the evaluations the new search gathered - whatever the kill left behind (a stale results.csv.tmp included: d0 is ANY
+   set of files; the model opens the temporary file with "w", which truncates an existing one) *)
+Theorem C15_restart_complete : forall d0 cands pre new tail,
+  cands_ok (sinit, mkFs d0 None, []) (ANew cands :: pre ++ ADump (new, true) :: tail) -> (tail = [] \/ tail = [AEnd]) ->
+  let acts := ANew cands :: pre ++ ADump (new, true) :: tail in
+  let seen := seen_after [] (pre ++ ADump (new, true) :: tail) in
+  let d := disk (exec (mkFs d0 None) (trace Fixed (mkFs d0 None) acts)) in
+  seen = [] \/ exists n c, fget d fresults = Some (LH n :: c) /\ ids c = map jid seen.
+Proof. exact fixed_restart_complete. Qed.
+Print Assumptions C15_restart_complete.
+
 (* REPAIRED rename (given a candidate that does not exist): results.csv moves to a name that did not exist, every other
    file keeps its content *)
 Theorem C15_rename_distinct : forall d cands, cands_free d cands ->
@@ -106,6 +118,17 @@ Theorem C15_oracle_trace : forall finished tr, ok_trace finished tr = true ->
   /\ (forall j k, (j <= k)%nat -> NoLoss (crash fs0 tr j) (crash fs0 tr k)).
 Proof. exact ok_trace_sound. Qed.
 Print Assumptions C15_oracle_trace.
+
+(* the restart clause decided on the real bytes before / after a new search ran in the directory a kill left behind *)
+Theorem C15_oracle_restart : forall finished newfin before after,
+  ok_restart finished newfin before after = true ->
+  (forall f c, is_csv f = true -> fget after f = Some c -> FileSpec (finished ++ newfin) c)
+  /\ NoLoss before after
+  /\ (forall i, In i newfin -> exists c, fget after fresults = Some c /\ In i (ids c))
+  /\ (forall f c, is_csv f = true -> In (f, c) before ->
+        exists g, g <> fresults /\ is_csv g = true /\ fget after g = Some c).
+Proof. exact ok_restart_sound. Qed.
+Print Assumptions C15_oracle_restart.
 
 (* non-vacuity: a two-call two-objective search followed by a second search, candidates with a free name *)
 Example C15_example :
